@@ -5,7 +5,7 @@ from worldprop import COMMON_ASSUMPTIONS, COMMON_TRUSTED, count_dist
 
 PID = 'C01'
 CHECK_FN = 'check_C01'
-RULE = ('random worlds: 0..4 layers (+ UnitTests) as class or instance layers on random DAGs with random names, hooks present '
+RULE = ('random worlds: 0..4 layers (plus some fault-free worlds with up to 7 layers and up to 3 bases per layer) (+ UnitTests) as class or instance layers on random DAGs with random names, hooks present '
         'with p=0.8, setUp scripts ok / raise / ok-then-raise / raise-then-ok, tearDown scripts ok / raise / NotImplementedError / '
         'NotImplemented-then-ok, 1..7 tests on random layers; options from {-x, --repeat 2, -j2/-j3, -v}; thorough adds an '
         'exhaustive sweep over all DAGs on <= 3 layers x one fault placement per hook x 4 test placements (sequential); '
@@ -17,6 +17,14 @@ ASSUMPTIONS = COMMON_ASSUMPTIONS
 def generate(rng, tier, rep):
     n = {'quick': 260, 'thorough': 2500, 'search': 500}[tier]
     cases = [worldcase.gen_world(rng, rich=(rng.random() < 0.3)) for _ in range(n)]
+    # wider and deeper layer graphs (up to 7 layers, up to 3 bases each: shared bases reached along several paths), fault-free
+    # sequential runs with a test on most layers so that the order of set-ups and tear-downs between layers is exercised
+    for _ in range({'quick': 40, 'thorough': 400, 'search': 60}[tier]):
+        c = worldcase.gen_world(rng, max_layers=7, max_tests=3, opts=[], faults=False, rich=False)
+        for li in range(len(c['layers'])):
+            if rng.random() < 0.8:
+                c['tests'].append({'layer': li})
+        cases.append(c)
     if tier == 'thorough':
         cases += exhaustive(rng)
     for c in cases:
